@@ -72,9 +72,10 @@ def build(stage):
 # ------------------------------------------------------------------------------------------------ scenario helpers
 
 def mk(**kw):
+    kw = dict(kw)
     d = {"m": "rs", "p": "n", "b": 0, "u": 0, "vk": "k", "vl": 100, "pre": None, "at": "e", "act": "204", "al": 50, "acl": 0, "ch": 0,
          "cut": "-", "end": "k", "seg": 0, "uob": 0}
-    d.update(kw)
+    d.update({k: v for k, v in kw.items() if k in d})
     if d["vk"] == "n":
         d["vl"] = 0
     if d["pre"] is None or d["pre"] > d["vl"]:
@@ -85,6 +86,10 @@ def mk(**kw):
         d["pre"] = max(d["pre"], min(int(d["p"]), d["vl"]))
     if d["cut"] != "-" and d["end"] == "k":
         d["end"] = "c"
+    if d["vl"] >= CAP and d["at"] in ("h", "p") and d["p"] == "n" and not allow204_outside(d) and not kw.get("racy"):
+        # nothing keeps squid from releasing body bytes while it writes them: whether it already did when the stub acts is a race
+        d["at"] = "e"
+        d["pre"] = d["vl"]
     if d["act"] == "206":
         d["uob"] = min(d["uob"], d["vl"])
     return fmt(d)
@@ -123,10 +128,14 @@ def reply_complete(d):
     return d["cut"] == "-" and d["act"] in ("204", "200", "200n", "200r", "206")
 
 
+def headless(d):
+    return d["act"] in ("200x", "206x")
+
+
 def failure_before_adapted_use(d):
     """the service fails before squid got a whole adapted head: error status, garbage, close/reset without a reply, a reply cut inside
     the ICAP head or inside the adapted HTTP head"""
-    if d["act"] in ("g", "x", "r") or re.fullmatch(r"e\d+", d["act"]):
+    if d["act"] in ("g", "x", "r", "200x") or re.fullmatch(r"e\d+", d["act"]):
         return True
     if d["act"] in ("204", "200", "200n", "200r", "206") and d["cut"][0] in "it":
         if d["cut"][0] == "t" and d["act"] == "204":
@@ -248,11 +257,13 @@ def compare(line, impl, model):
     d = parse(line)
     if d is None:
         return impl == model
+    want = model.split(" ")[0].split("|")
+    if impl.startswith("abort:squid-died"):
+        return "CRASH" in want
     obs = parse_obs(impl)
     if obs is None:
         return False
     got = recipient_class(d, obs)
-    want = model.split(" ")[0].split("|")
     if got in want:
         return True
     if got == "0" and "E" in want:
@@ -261,7 +272,7 @@ def compare(line, impl, model):
         # a truncated request may not have left squid at all when the abort came
         if ("AT" in want or "VT" in want) and got in ("E", "0"):
             return True
-    if d["m"] == "rs" and "AT" in want and got == "A" and d["acl"] == 1 and obs["c"]["relA"] == "eq":
+    if (d["m"] == "rs" or d["act"] == "200r") and "AT" in want and got == "A" and d["acl"] == 1 and obs["c"]["relA"] == "eq":
         return True      # every announced byte arrived before the abort: the client cannot see it
     if d["m"] == "rs" and "VT" in want and got == "V" and d["vk"] == "k" and obs["c"]["relV"] == "eq":
         return True
@@ -294,17 +305,24 @@ def classify(line, impl, why):
     d = parse(line)
     if d is None or not why:
         return None
+    if why.startswith("no usable observation: abort:squid-died"):
+        if d["act"] == "206x" and d["u"] == 1 and has_body(d) and d["cut"][0] != "i" and "Segment_Violation" in impl:
+            return "C60-206-without-http-head-segfault"
+        if d["act"] in ("204", "100") and d["cut"] == "-" and has_body(d) and "virginConsumed" in impl and d["vl"] >= CAP and not allow204_outside(d):
+            return "C60-unsolicited-204-fatal"
+        return None
     if why.startswith("bypass=1 and the service failed"):
         if d["m"] == "rs" and (d["act"] == "r" or (d["cut"][0] == "i" and d["end"] == "r")):
             return "C60-respmod-read-error-not-bypassed"
         if d["cut"][0] == "t" and d["act"] in ("200", "200n", "200r", "206"):
             return "C60-bypass-lost-after-icap-200-status"
-        if has_body(d) and d["cut"][0] != "i":
-            backup_planned = preview_ad(d) is not None or allow204_outside(d) or (d["u"] == 1)
-            if re.fullmatch(r"e\d+", d["act"]) and backup_planned:
-                return "C60-bypass-lost-after-stopbackup"
-            if continued(d) and not allow204_outside(d) and not (d["u"] == 1 and allow204_outside(d)):
-                return "C60-bypass-lost-after-stopbackup"
+        if has_body(d):
+            backup_planned = preview_ad(d) is not None or allow204_outside(d)
+            m = re.fullmatch(r"e(\d+)", d["act"])
+            if m and 100 <= int(m.group(1)) <= 599 and d["cut"][0] != "i" and backup_planned:
+                return "C60-bypass-lost-after-stopbackup"     # handleUnknownScode(): stopBackup() before the throw
+            if continued(d) and not allow204_outside(d):
+                return "C60-bypass-lost-after-stopbackup"     # handle100Continue(): stopBackup() when 204/206 outside the preview is not allowed
     return None
 
 
@@ -397,6 +415,17 @@ def exhaustive_small():
     return out
 
 
+def gen_fatal(rng):
+    """replies squid does not survive today (kept few: every one costs a restart)"""
+    k = rng.below(3)
+    if k == 0:     # 206 with a body but without an encapsulated HTTP head
+        return mk(m=rng.choice(["rs", "rq"]), p=rng.choice(["5", "100"]), b=rng.below(2), u=1, vk="k", vl=rng.choice([50, 3000]), at=rng.choice(["p", "e"]), act="206x", al=rng.choice([0, 10]))
+    if k == 1:     # the same shape as a 200: refused by validate200Ok()
+        return mk(m=rng.choice(["rs", "rq"]), p=rng.choice(["n", "5"]), b=rng.below(2), u=1, vk="k", vl=50, at="e", act="200x", al=10)
+    # 204 nobody offered, while the body (too big to back up) is still being written
+    return mk(m="rs", p="n", b=0, u=0, vk=rng.choice(["u", "k"]), vl=rng.choice([300000, 390000]), at="h", act="204", racy=True)
+
+
 def cases(rng, tier):
     thorough = tier == "thorough"
     n = 1500 if thorough else 260
@@ -407,6 +436,8 @@ def cases(rng, tier):
         if l not in seen:
             seen.add(l)
             out.append(l)
+    for i in range(8 if thorough else 3):
+        add(gen_fatal(rng))
     if thorough:
         for l in exhaustive_small():
             add(l)
